@@ -125,7 +125,7 @@ def run(ctx):
     ctx.assumptions = ["regex functions, hashes, base64, latin1, printf verbs: oracle comparison only (no Coq model): partial",
                        "full Unicode case mapping is outside the model"]
     forbidden_gate(ctx, ["Base", "C15"])
-    ok, why = check_props(ctx, "C15/Props.v", ["C15/Harness.vo", "C15/Proofs.vo"])
+    ok, why = check_props(ctx, "C15/Props.v", ["C15/Harness.vo", "C15/Proofs.vo", "C15/Utf8Proofs.vo"])
     rng = ctx.rng
     terms, meta, oracle_bad = [], [], []
 
@@ -234,6 +234,11 @@ def run(ctx):
         for row, o in zip(rows1, r1):
             _, s, m, k, pad, w = row; m, k, w = int(m), int(k), int(w)
             rs = go_runes(s); n = len(rs)
+            try:
+                s.decode("utf-8"); pyvalid = 1
+            except UnicodeDecodeError:
+                pyvalid = 0
+            case(19, pyvalid, 0, s, b"", b"", b"", {"fn": "valid_utf8 (recogniser vs python strict decoding)", "s": s.hex()})
             if o["len"] != ERR:
                 case(0, int(o["len"]), 0, s, b"", b"", b"", {"fn": "strlen", "s": s.hex()})
                 if int(o["len"]) != n:
